@@ -7,22 +7,22 @@ A_LIBC = 'libc: memcmp/memset/memmove/strlen/snprintf/printf behave per ISO C; %
 
 CONFIG = {
  'C01': dict(level='proof', tags={'C01'}, owns_crash=['parser', 'other'],
-             profiles=[('any', 36000, 288000), ('reuse', 12000, 96000), ('verify', 18000, 144000), ('nav', 12000, 96000)],
+             profiles=[('any', 36000, 1152000), ('reuse', 12000, 384000), ('verify', 18000, 576000), ('nav', 12000, 384000)],
              assumptions=[A_MODEL, A_SIZE, 'field lookups are issued only while positioned inside an object (documented)']),
- 'C02': dict(level='proof', tags={'C02'}, profiles=[('verify', 72000, 576000), ('stream', 6000, 48000), ('xverify', 4, 5)], assumptions=[A_MODEL, A_SIZE]),
- 'C03': dict(level='proof', tags={'C03'}, profiles=[('walk', 18000, 144000), ('navg', 18000, 144000)], assumptions=[A_MODEL, A_SIZE]),
- 'C04': dict(level='proof', tags={'C04'}, owns_crash=['writer'], profiles=[('writer', 14400, 115200)], assumptions=[A_MODEL, A_SIZE, 'valid arguments: non-NULL pointers, lengths <= INT32_MAX']),
- 'C05': dict(level='proof', tags={'C05'}, profiles=[('rt', 9600, 76800), ('writer', 7200, 57600)], assumptions=[A_MODEL, A_SIZE]),
- 'C06': dict(level='proof', tags={'C06'}, profiles=[('nav', 48000, 384000), ('navg', 12000, 96000), ('xnav', 46, 58)], assumptions=[A_MODEL, A_SIZE]),
- 'C07': dict(level='proof', tags={'C07'}, profiles=[('nav', 48000, 384000), ('xnav', 46, 57)], assumptions=[A_MODEL, A_SIZE]),
- 'C08': dict(level='proof', tags={'C08'}, profiles=[('stream', 60000, 480000)], assumptions=[A_MODEL, A_SIZE]),
- 'C09': dict(level='proof', tags={'C09'}, profiles=[('any', 36000, 288000), ('writer', 9600, 76800), ('stream', 9600, 76800)], assumptions=[A_MODEL, A_SIZE]),
- 'C10': dict(level='proof', tags={'C10'}, profiles=[('tr', 36000, 288000), ('rt', 6000, 48000)], assumptions=[A_MODEL, A_SIZE]),
- 'C11': dict(level='proof', tags={'C11'}, profiles=[('nav', 48000, 384000), ('xnav', 46, 57)], assumptions=[A_MODEL, A_SIZE]),
- 'C12': dict(level='proof', tags={'C12'}, profiles=[('reuse', 36000, 288000), ('writer', 6000, 48000)], assumptions=[A_MODEL, A_SIZE]),
- 'C13': dict(level='proof', tags={'C13'}, owns_crash=['print'], profiles=[('print', 14400, 115200), ('any', 9600, 76800)], assumptions=[A_MODEL, A_SIZE, A_LIBC]),
- 'C14': dict(level='proof', tags={'C14'}, profiles=[('print', 18000, 144000)], assumptions=[A_MODEL, A_SIZE, A_LIBC]),
- 'C16': dict(level='proof', tags={'C16'}, owns_crash=['timeout'], profiles=[('any', 36000, 288000), ('verify', 24000, 192000), ('stream', 18000, 144000)], assumptions=[A_MODEL, A_SIZE]),
+ 'C02': dict(level='proof', tags={'C02'}, profiles=[('verify', 72000, 2304000), ('stream', 6000, 192000), ('xverify', 4, 5)], assumptions=[A_MODEL, A_SIZE]),
+ 'C03': dict(level='proof', tags={'C03'}, profiles=[('walk', 18000, 576000), ('navg', 18000, 576000)], assumptions=[A_MODEL, A_SIZE]),
+ 'C04': dict(level='proof', tags={'C04'}, owns_crash=['writer'], profiles=[('writer', 14400, 460800)], assumptions=[A_MODEL, A_SIZE, 'valid arguments: non-NULL pointers, lengths <= INT32_MAX']),
+ 'C05': dict(level='proof', tags={'C05'}, profiles=[('rt', 9600, 307200), ('writer', 7200, 230400)], assumptions=[A_MODEL, A_SIZE]),
+ 'C06': dict(level='proof', tags={'C06'}, profiles=[('nav', 48000, 1536000), ('navg', 12000, 384000), ('xnav', 46, 58)], assumptions=[A_MODEL, A_SIZE]),
+ 'C07': dict(level='proof', tags={'C07'}, profiles=[('nav', 48000, 1536000), ('xnav', 46, 57)], assumptions=[A_MODEL, A_SIZE]),
+ 'C08': dict(level='proof', tags={'C08'}, profiles=[('stream', 60000, 1920000)], assumptions=[A_MODEL, A_SIZE]),
+ 'C09': dict(level='proof', tags={'C09'}, profiles=[('any', 36000, 1152000), ('writer', 9600, 307200), ('stream', 9600, 307200)], assumptions=[A_MODEL, A_SIZE]),
+ 'C10': dict(level='proof', tags={'C10'}, profiles=[('tr', 36000, 1152000), ('rt', 6000, 192000)], assumptions=[A_MODEL, A_SIZE]),
+ 'C11': dict(level='proof', tags={'C11'}, profiles=[('nav', 48000, 1536000), ('xnav', 46, 57)], assumptions=[A_MODEL, A_SIZE]),
+ 'C12': dict(level='proof', tags={'C12'}, profiles=[('reuse', 36000, 1152000), ('writer', 6000, 192000)], assumptions=[A_MODEL, A_SIZE]),
+ 'C13': dict(level='proof', tags={'C13'}, owns_crash=['print'], profiles=[('print', 14400, 24000), ('any', 9600, 307200)], assumptions=[A_MODEL, A_SIZE, A_LIBC]),
+ 'C14': dict(level='proof', tags={'C14'}, profiles=[('print', 18000, 30000)], assumptions=[A_MODEL, A_SIZE, A_LIBC]),
+ 'C16': dict(level='proof', tags={'C16'}, owns_crash=['timeout'], profiles=[('any', 36000, 1152000), ('verify', 24000, 768000), ('stream', 18000, 576000)], assumptions=[A_MODEL, A_SIZE]),
  'C15': dict(level='proof', tags={'C15'}, profiles=[('cpp-trees', 0, 0), ('cpp-bytes', 0, 0)], special='c15', assumptions=[A_MODEL, A_SIZE, 'std::map orders std::string keys as unsigned bytes; std::string/std::vector have value semantics', 'crashes, uninitialised reads and the exception machinery are runtime behaviour outside the Lean model: decided by the ASan+UBSan harness with a poisoned stack (partial)']),
  'C17': dict(level='proof', tags=set(), profiles=[], special='c17'),
  'C18': dict(level='translation_validation', tags=set(), profiles=[], special='c18'),
